@@ -45,7 +45,7 @@ try:
         res = {}
         for c in checks:
             r = subprocess.run(["./check", c], cwd=V, env=dict(os.environ, VERIF_REPO=wt), capture_output=True, text=True)
-            res[c] = {"exit": r.returncode, "lines": [l for l in r.stdout.splitlines() if "VIOLATION" in l or "KNOWN" in l][:3],
+            res[c] = {"exit": r.returncode, "lines": ([l for l in r.stdout.splitlines() if l.startswith("VIOLATION")][:2] + [l[:160] for l in r.stdout.splitlines() if l.startswith("KNOWN")][:3]),
                       "summary": (r.stdout.splitlines() or [""])[-1]}
         tests = None
         if run_tests:
